@@ -103,7 +103,10 @@ def res_tables(net):
     return sorted(k for k in net.keys() if k.startswith("res_") and hasattr(net[k], "columns") and len(net[k]))
 
 
-def compare_results(net_a, net_b, atol=1e-10, rtol=1e-9, index_map=None, skip_cols=(), subset=False):
+FLOW_COLS = ("mdot", "v_", "vdot", "reynolds", "lambda", "dp_friction", "compr_power", "qext", "deltat")
+
+
+def compare_results(net_a, net_b, atol=1e-10, rtol=1e-9, index_map=None, skip_cols=(), subset=False, flow_scale_tol=None):
     """compare all result tables of two nets element by element; returns list of differences
     (table, column, index, a, b).  NaN must match NaN.  index_map: table -> {index_a: index_b}."""
     diffs = []
@@ -119,7 +122,13 @@ def compare_results(net_a, net_b, atol=1e-10, rtol=1e-9, index_map=None, skip_co
             va = a[col].values.astype(float)
             vb = (b[col].reindex([im[i] for i in a.index]).values if im is not None else b[col].reindex(a.index).values).astype(float)
             nan_a, nan_b = np.isnan(va), np.isnan(vb)
-            bad = (nan_a != nan_b) | (~nan_a & ~nan_b & (np.abs(va - vb) > atol + rtol * np.maximum(np.abs(va), np.abs(vb))))
+            at = atol
+            if flow_scale_tol is not None and col.startswith(FLOW_COLS):
+                # flows of nearly stagnant branches are ill-conditioned (dp ~ m|m|): allow a tolerance relative to the
+                # largest value of the column instead of the individual (possibly tiny) value
+                fin = np.concatenate([va[~nan_a], vb[~nan_b]])
+                at = max(atol, 1e-5, flow_scale_tol * (np.max(np.abs(fin)) if fin.size else 0.0))
+            bad = (nan_a != nan_b) | (~nan_a & ~nan_b & (np.abs(va - vb) > at + rtol * np.maximum(np.abs(va), np.abs(vb))))
             for k in np.flatnonzero(bad)[:2]:
                 diffs.append((t, col, int(a.index[k]), float(va[k]), float(vb[k])))
     return diffs
